@@ -28,8 +28,8 @@ CHECKS = {
          "Theorems (all histories): get returns a copy, captured options never change, helpers restore defaults on every exit path (for the try/finally model that the fixed code follows; the harness detects which model the tree follows), setstate∘getstate. TorchScript/pickle clauses have no Lean model: differential stream over module families.",
          "The runtime clauses (TorchScript, pickle, torch.save, deepcopy) are outside any theorem: level `other`. Six compile/pickle defects are recorded as known findings.", "6 C14"),
  "C16": ("proof", "C", "scalar-generic Lean model of soft_unit_step / soft_one_hot_linspace / normalize2mom (theorems over R incl. Mathlib's expNegInvGlue, executed at Float) + boundary-targeted correspondence",
-         "soft_unit_step = expNegInvGlue, C-infinity, derivative = the coded backward everywhere; centres, exact support with cutoff, cosine sum of squares = 1, Fourier closed forms and upper bound, gaussian sum of squares within (0.4, 2) (upper bound for every x: two geometric series); Float model vs torch at ends/centres ±1ulp.",
-         "Trusted: Lean kernel, Mathlib. Numeric range bounds: proved for cosine (=1), gaussian (both) and fourier (upper); smooth_finite and the fourier lower bound: dense grid on the real code only (partial). normalize2mom second moment: statistical, quadrature check only.", "6 C16"),
+         "soft_unit_step = expNegInvGlue, C-infinity, derivative = the coded backward everywhere; centres, exact support with cutoff, sum of squares within the bounds (0.4, 2) of e3nn's own test for every normalisable family: cosine exactly 1, gaussian (two geometric series), smooth_finite (at most two overlapping bumps, certified enclosures exp x <= (1/(1-x/k))^k), fourier (exact closed forms; lower bound without cutoff strictly inside, upper bound for every x) — upper bounds for EVERY x and every number of functions; Float model vs torch at ends/centres ±1ulp.",
+         "Trusted: Lean kernel, Mathlib. Not proved: a lower bound for fourier WITH cutoff (it can hold only away from the ends, the region the property excludes; dense grid on the real code). normalize2mom second moment: statistical, quadrature check only.", "6 C16"),
  "C17": ("proof", "B", "Lean model of perm.py/_reduce.py with theorems for all n (bijection with Equiv.Perm, sign = Mathlib's sign, germinate = generated subgroup, reduce_permutation orthonormal complete basis) + exhaustive correspondence n<=6",
          "All group-theoretic clauses proved for every n (not only n<=6); reduce_permutation rows: disjoint supports, invariance, completeness for all formulas and dims. Float linear-algebra helpers: oracle checks on the real code only.",
          "Trusted: Lean kernel, Mathlib. orthonormalize/complete_basis/direct_sum/standard_representation have no exact model (float thresholds): correspondence/oracles only.", "6 C17"),
